@@ -25,15 +25,16 @@ import (
 
 type TMOpts struct {
 	Optimize, DefaultReduce, Minimize bool
-	Cancellable                      bool
-	Recovering                       bool // declares the `error` token
-	FixWhitespace                    bool
-	Space                            bool // add a whitespace (space) rule
-	K                                int  // lalr(k)
-	ArrowPerRule                     bool // `-> R<i>` on every rule (listener = reduce trace)
-	Markers                          bool // sprinkle state markers `.m0`/`.m1` into rules (deterministically)
-	ExpectSR, ExpectRR               int
-	Extra                            string // extra option lines
+	Cancellable                       bool
+	Recovering                        bool // declares the `error` token
+	FixWhitespace                     bool
+	Space                             bool // add a whitespace (space) rule
+	K                                 int  // lalr(k)
+	ArrowPerRule                      bool // `-> R<i>` on every rule (listener = reduce trace)
+	Markers                           bool // sprinkle state markers `.m0`/`.m1` into rules (deterministically)
+	ExpectSR, ExpectRR                int
+	Extend                            bool   // define some nonterminals in two places (`N: …;` + `extend N: …;`)
+	Extra                             string // extra option lines
 }
 
 // TM renders the grammar as textmapper source. Rules are grouped by nonterminal in order of first
@@ -103,11 +104,61 @@ func (g *Gram) TM(name string, o TMOpts) string {
 			order = append(order, r.LHS)
 		}
 	}
+	type block struct {
+		lhs    int
+		header string
+		rules  map[int]bool // nil = all rules of lhs
+	}
+	var blocks, later []block
 	for _, lhs := range order {
-		fmt.Fprintf(&sb, "%s :\n", g.SymName(lhs))
+		var idx []int
+		for i, r := range g.Rules {
+			if r.LHS == lhs {
+				idx = append(idx, i)
+			}
+		}
+		if o.Extend && len(idx) >= 2 {
+			// the nonterminal is defined in two places: `N : …;` and, further down, `extend N : …;`
+			k := 1 + (lhs+idx[0])%(len(idx)-1)
+			a, b := map[int]bool{}, map[int]bool{}
+			empty := -1
+			for _, i := range idx {
+				if len(g.Rules[i].RHS) == 0 {
+					empty = i
+				}
+			}
+			for j, i := range idx {
+				switch {
+				case empty >= 0 && lhs%2 == 0: // the empty alternative alone in the first definition
+					if i == empty {
+						a[i] = true
+					} else {
+						b[i] = true
+					}
+				case empty >= 0: // … or alone in the `extend` clause
+					if i == empty {
+						b[i] = true
+					} else {
+						a[i] = true
+					}
+				case j < k:
+					a[i] = true
+				default:
+					b[i] = true
+				}
+			}
+			blocks = append(blocks, block{lhs, g.SymName(lhs) + " :", a})
+			later = append(later, block{lhs, "extend " + g.SymName(lhs) + " :", b})
+			continue
+		}
+		blocks = append(blocks, block{lhs, g.SymName(lhs) + " :", nil})
+	}
+	for _, bl := range append(blocks, later...) {
+		lhs := bl.lhs
+		fmt.Fprintf(&sb, "%s\n", bl.header)
 		first := true
 		for i, r := range g.Rules {
-			if r.LHS != lhs {
+			if r.LHS != lhs || (bl.rules != nil && !bl.rules[i]) {
 				continue
 			}
 			if first {
@@ -168,12 +219,12 @@ func (w *mapWriter) Write(filename, content string) error {
 }
 
 type GenParser struct {
-	Name    string
-	TM      string
-	G       *grammar.Grammar
-	Files   map[string]string
-	Err     error
-	Opts    TMOpts
+	Name  string
+	TM    string
+	G     *grammar.Grammar
+	Files map[string]string
+	Err   error
+	Opts  TMOpts
 	// RuleOfType maps a node type id (index in RangeTypes + 1, as printed by the runner) to the
 	// compiled rule index carrying it as its rule type.
 	RuleOfType map[string]int
